@@ -358,6 +358,17 @@ func (t *LoggingTransport) Connect(ctx context.Context) (Connection, error) {
 	return &loggingConn{delegate: delegate, w: t.Writer}, nil
 }
 
+// SupportsProtocolVersion implements [ProtocolVersionSupporter] by deferring to
+// the wrapped transport: logging does not change which protocol versions a
+// transport can serve. A transport that does not implement the interface
+// supports every version, wrapped or not.
+func (t *LoggingTransport) SupportsProtocolVersion(version string) bool {
+	if pvs, ok := t.Transport.(ProtocolVersionSupporter); ok {
+		return pvs.SupportsProtocolVersion(version)
+	}
+	return true
+}
+
 type loggingConn struct {
 	delegate Connection
 
